@@ -31,7 +31,8 @@ EXPLANATION = (
     "modified; spectrum attributes (scan, charge, retention time, mass) "
     "and the run's file name are read from the documented attributes; "
     "several files are concatenated and Percolator/PeptideProphet output "
-    "is rejected. NOT decided: lxml semantics, feature transforms.")
+    "is rejected. Also: the per-file frames are stacked with the union of their columns. "
+    "NOT decided: lxml semantics, feature transforms.")
 TECHNIQUE = ("def-use term matching + linear normal form over string "
              "lengths + generator nesting / alias analysis")
 
